@@ -402,6 +402,9 @@ func IsInjected(err error) bool {
 type NodeIdStorage struct {
 	*RecStorage
 	Order map[string][]string
+	// EmptyOnMiss makes a lookup that finds no record return an empty set and a
+	// nil error (a query-style back end) instead of ErrNotFound.
+	EmptyOnMiss bool
 	// Native delegates the lookup to the inner storage's own LoadByNodeId (the
 	// repository's store-once test back end, whose order is that of a Go map).
 	Native bool
@@ -456,7 +459,7 @@ func (s *NodeIdStorage) loadByNodeId(ctx context.Context, m nodeenrollment.Messa
 			out = append(out, n)
 		}
 	}
-	if len(out) == 0 {
+	if len(out) == 0 && !s.EmptyOnMiss {
 		return nodeenrollment.ErrNotFound
 	}
 	set.Nodes = out
